@@ -1,0 +1,146 @@
+//go:build verif
+
+// Contracts for package bebop (the compiler front end), checked by /verif/gocv.
+// This file contains no executable code; it is compiled only under the build
+// tag "verif".
+//
+// Ghost state of the tokenizer's bufio.Reader (see /verif/contracts/stdlib.contracts):
+// canunread, ateof, ioerr.
+package bebop
+
+// okTR: a tokenReader is usable and no I/O error has been lost: whenever its reader
+// reported an error other than io.EOF, some error is on record.
+//@ define okTR(tr *tokenReader) bool = tr != nil && tr.r != nil && tr.tree != nil && (ghost("ioerr", tr.r) == 1 ==> len(tr.errs) > 0)
+
+//@ func newTokenReader
+//@   ensures okTR(result) && isfresh(result) && len(result.errs) == 0 && ghost("canunread", result.r) == 0 && ghost("ioerr", result.r) == 0 && !result.keepNextToken
+//@   modifies fresh(tokenReader), fresh(tokenTree), ghost("canunread"), ghost("ateof"), ghost("ioerr"), alloc()
+
+//@ func (*tokenReader).readByte
+//@   requires tr.r != nil
+//@   ensures result1 == nil ==> ghost("canunread", tr.r) == 1 && ghost("ateof", tr.r) == 0 && ghost("ioerr", tr.r) == old(ghost("ioerr", tr.r))
+//@   ensures result1 != nil ==> ghost("canunread", tr.r) == old(ghost("canunread", tr.r))
+//@   ensures result1 == io.EOF ==> ghost("ateof", tr.r) == 1 && ghost("ioerr", tr.r) == old(ghost("ioerr", tr.r))
+//@   ensures (result1 != nil && result1 != io.EOF) ==> ghost("ioerr", tr.r) == 1
+//@   ensures old(ghost("ioerr", tr.r)) == 1 ==> ghost("ioerr", tr.r) == 1
+//@   modifies tr.loc.lineChar, ghost("canunread", tr.r), ghost("ateof", tr.r), ghost("ioerr", tr.r)
+
+// unreadByte panics when there is nothing to unread: callers must have read a byte.
+//@ func (*tokenReader).unreadByte
+//@   requires tr.r != nil && ghost("canunread", tr.r) == 1
+//@   ensures ghost("canunread", tr.r) == 0
+//@   modifies tr.loc.lineChar, ghost("canunread", tr.r)
+
+//@ func (*tokenReader).addError
+//@   ensures len(tr.errs) == old(len(tr.errs)) + 1
+//@   modifies tr.errs, fresh(locError), alloc()
+
+// The static token tree is built once by newTokenTree; its shape is trusted (assumed contract).
+//@ assume-func newTokenTree
+//@   ensures result != nil && isfresh(result)
+//@   modifies fresh(tokenTree), alloc()
+
+// Effects every tokenizer step has on the reader: errors only accumulate, an I/O error that
+// happens during the step is put on record, the reader and tree stay the same.
+//@ define stepTR(tr *tokenReader) bool = tr.r != nil && tr.tree != nil
+
+// Token builders (the functions stored in tokenTree.build).
+//@ functype func(tr *tokenReader, concrete []byte) token
+//@   requires tr != nil && tr.r != nil && tr.tree != nil
+//@   ensures tr.r == old(tr.r) && tr.tree == old(tr.tree)
+//@   ensures len(tr.errs) >= old(len(tr.errs))
+//@   ensures (ghost("ioerr", tr.r) == 1 && old(ghost("ioerr", tr.r)) == 0) ==> len(tr.errs) > old(len(tr.errs))
+//@   ensures old(ghost("ioerr", tr.r)) == 1 ==> ghost("ioerr", tr.r) == 1
+//@   modifies tr.errs, tr.loc.lineChar, tr.loc.line, tr.nextToken, tr.lastToken, ghost("canunread", tr.r), ghost("ateof", tr.r), ghost("ioerr", tr.r), fresh(locError), fresh(byte), tr(), hw(), alloc()
+
+//@ func (*tokenTree).find
+//@   requires v != nil
+//@   requires tr != nil && tr.r != nil && tr.tree != nil
+//@   requires len(concrete) > 0 ==> ghost("canunread", tr.r) == 1
+//@   ensures tr.r == old(tr.r) && tr.tree == old(tr.tree)
+//@   ensures len(tr.errs) >= old(len(tr.errs))
+//@   ensures (ghost("ioerr", tr.r) == 1 && old(ghost("ioerr", tr.r)) == 0) ==> len(tr.errs) > old(len(tr.errs))
+//@   ensures old(ghost("ioerr", tr.r)) == 1 ==> ghost("ioerr", tr.r) == 1
+//@   invariant loop 1: tr.r == old(tr.r) && tr.tree == old(tr.tree) && tr.r != nil && len(tr.errs) == old(len(tr.errs)) && ghost("ioerr", tr.r) == old(ghost("ioerr", tr.r))
+//@   invariant loop 1: len(concrete) > 0 ==> ghost("canunread", tr.r) == 1
+//@   ensures [UNREAD] (!result1 && len(tr.errs) == old(len(tr.errs))) ==> ghost("canunread", tr.r) == 1
+//@   assume before "concrete = append(concrete, b)": t != nil
+//@   modifies tr.errs, tr.loc.lineChar, tr.loc.line, tr.nextToken, tr.lastToken, ghost("canunread", tr.r), ghost("ateof", tr.r), ghost("ioerr", tr.r), fresh(locError), fresh(byte), any(string), tr(), hw(), alloc()
+
+//@ func (*tokenTree).findFirst
+//@   requires v != nil && tr != nil && tr.r != nil && tr.tree != nil
+//@   ensures tr.r == old(tr.r) && tr.tree == old(tr.tree)
+//@   ensures len(tr.errs) >= old(len(tr.errs))
+//@   ensures (ghost("ioerr", tr.r) == 1 && old(ghost("ioerr", tr.r)) == 0) ==> len(tr.errs) > old(len(tr.errs))
+//@   ensures old(ghost("ioerr", tr.r)) == 1 ==> ghost("ioerr", tr.r) == 1
+//@   ensures [UNREAD] (!result1 && len(tr.errs) == old(len(tr.errs))) ==> ghost("canunread", tr.r) == 1
+//@   modifies tr.errs, tr.loc.lineChar, tr.loc.line, tr.nextToken, tr.lastToken, ghost("canunread", tr.r), ghost("ateof", tr.r), ghost("ioerr", tr.r), fresh(locError), fresh(byte), any(string), tr(), hw(), alloc()
+
+// A non-terminal node of the token tree has successors (tree shape, trusted with newTokenTree).
+//@ assume-func (*tokenTree).nextValidBytes
+//@   ensures len(result) >= 1 && len(result[0]) >= 1
+//@   modifies fresh(string), alloc()
+
+// ---- token builders: each satisfies the function-type contract above -------------------------
+//@ func simpleToken$1
+//@   modifies nothing
+//@ func numberToken
+//@   requires tr != nil && tr.r != nil && tr.tree != nil
+//@   ensures tr.r == old(tr.r) && tr.tree == old(tr.tree)
+//@   ensures len(tr.errs) >= old(len(tr.errs))
+//@   ensures (ghost("ioerr", tr.r) == 1 && old(ghost("ioerr", tr.r)) == 0) ==> len(tr.errs) > old(len(tr.errs))
+//@   ensures old(ghost("ioerr", tr.r)) == 1 ==> ghost("ioerr", tr.r) == 1
+//@   modifies tr.errs, tr.loc.lineChar, tr.loc.line, tr.nextToken, tr.lastToken, ghost("canunread", tr.r), ghost("ateof", tr.r), ghost("ioerr", tr.r), fresh(locError), fresh(byte), any(string), tr(), hw(), alloc()
+//@   invariant loop 1: tr.r == old(tr.r) && tr.tree == old(tr.tree) && tr.r != nil && len(tr.errs) == old(len(tr.errs)) && ghost("ioerr", tr.r) == old(ghost("ioerr", tr.r))
+//@ func lineCommentToken
+//@   requires tr != nil && tr.r != nil && tr.tree != nil
+//@   ensures tr.r == old(tr.r) && tr.tree == old(tr.tree)
+//@   ensures len(tr.errs) >= old(len(tr.errs))
+//@   ensures (ghost("ioerr", tr.r) == 1 && old(ghost("ioerr", tr.r)) == 0) ==> len(tr.errs) > old(len(tr.errs))
+//@   ensures old(ghost("ioerr", tr.r)) == 1 ==> ghost("ioerr", tr.r) == 1
+//@   modifies tr.errs, tr.loc.lineChar, tr.loc.line, tr.nextToken, tr.lastToken, ghost("canunread", tr.r), ghost("ateof", tr.r), ghost("ioerr", tr.r), fresh(locError), fresh(byte), any(string), tr(), hw(), alloc()
+//@ func blockCommentToken
+//@   requires tr != nil && tr.r != nil && tr.tree != nil
+//@   ensures tr.r == old(tr.r) && tr.tree == old(tr.tree)
+//@   ensures len(tr.errs) >= old(len(tr.errs))
+//@   ensures (ghost("ioerr", tr.r) == 1 && old(ghost("ioerr", tr.r)) == 0) ==> len(tr.errs) > old(len(tr.errs))
+//@   ensures old(ghost("ioerr", tr.r)) == 1 ==> ghost("ioerr", tr.r) == 1
+//@   modifies tr.errs, tr.loc.lineChar, tr.loc.line, tr.nextToken, tr.lastToken, ghost("canunread", tr.r), ghost("ateof", tr.r), ghost("ioerr", tr.r), fresh(locError), fresh(byte), any(string), tr(), hw(), alloc()
+//@   invariant loop 1: tr.r == old(tr.r) && tr.tree == old(tr.tree) && tr.r != nil && len(tr.errs) == old(len(tr.errs)) && ghost("ioerr", tr.r) == old(ghost("ioerr", tr.r))
+//@ func stringLiteralToken
+//@   requires tr != nil && tr.r != nil && tr.tree != nil
+//@   ensures tr.r == old(tr.r) && tr.tree == old(tr.tree)
+//@   ensures len(tr.errs) >= old(len(tr.errs))
+//@   ensures (ghost("ioerr", tr.r) == 1 && old(ghost("ioerr", tr.r)) == 0) ==> len(tr.errs) > old(len(tr.errs))
+//@   ensures old(ghost("ioerr", tr.r)) == 1 ==> ghost("ioerr", tr.r) == 1
+//@   modifies tr.errs, tr.loc.lineChar, tr.loc.line, tr.nextToken, tr.lastToken, ghost("canunread", tr.r), ghost("ateof", tr.r), ghost("ioerr", tr.r), fresh(locError), fresh(byte), any(string), tr(), hw(), alloc()
+//@   invariant loop 1: tr.r == old(tr.r) && tr.tree == old(tr.tree) && tr.r != nil && len(tr.errs) == old(len(tr.errs)) && ghost("ioerr", tr.r) == old(ghost("ioerr", tr.r))
+
+// skipFollowingWhitespace must not lose an I/O error and must only unread a byte it has read.
+//@ func (*tokenReader).skipFollowingWhitespace
+//@   requires tr != nil && tr.r != nil && tr.tree != nil
+//@   ensures tr.r == old(tr.r) && tr.tree == old(tr.tree)
+//@   ensures len(tr.errs) >= old(len(tr.errs))
+//@   ensures (ghost("ioerr", tr.r) == 1 && old(ghost("ioerr", tr.r)) == 0) ==> len(tr.errs) > old(len(tr.errs))
+//@   ensures old(ghost("ioerr", tr.r)) == 1 ==> ghost("ioerr", tr.r) == 1
+//@   modifies tr.errs, tr.loc.lineChar, tr.loc.line, tr.nextToken, tr.lastToken, ghost("canunread", tr.r), ghost("ateof", tr.r), ghost("ioerr", tr.r), fresh(locError), fresh(byte), any(string), tr(), hw(), alloc()
+//@   invariant loop 1: tr.r == old(tr.r) && tr.tree == old(tr.tree) && tr.r != nil && len(tr.errs) == old(len(tr.errs)) && ghost("ioerr", tr.r) == old(ghost("ioerr", tr.r))
+
+//@ func (*tokenReader).nextIdent
+//@   requires tr != nil && tr.r != nil && tr.tree != nil
+//@   ensures tr.r == old(tr.r) && tr.tree == old(tr.tree)
+//@   ensures len(tr.errs) >= old(len(tr.errs))
+//@   ensures (ghost("ioerr", tr.r) == 1 && old(ghost("ioerr", tr.r)) == 0) ==> len(tr.errs) > old(len(tr.errs))
+//@   ensures old(ghost("ioerr", tr.r)) == 1 ==> ghost("ioerr", tr.r) == 1
+//@   modifies tr.errs, tr.loc.lineChar, tr.loc.line, tr.nextToken, tr.lastToken, ghost("canunread", tr.r), ghost("ateof", tr.r), ghost("ioerr", tr.r), fresh(locError), fresh(byte), any(string), tr(), hw(), alloc()
+//@   invariant loop 1: tr.r == old(tr.r) && tr.tree == old(tr.tree) && tr.r != nil && len(tr.errs) == old(len(tr.errs)) && ghost("ioerr", tr.r) == old(ghost("ioerr", tr.r))
+
+// Next: no panic; errors only accumulate, except that the io.EOF marker of a clean end of input is removed again.
+//@ func (*tokenReader).Next
+//@   requires okTR(tr)
+//@   ensures okTR(tr) && tr.r == old(tr.r) && tr.tree == old(tr.tree)
+//@   ensures [NODROP] (!result && old(len(tr.errs)) > 0) ==> len(tr.errs) > 0
+// the error removed from the record is the io.EOF marker findFirst has just added (errors.Is(lastErr, io.EOF)),
+// never an earlier error and never the record of an I/O failure
+//@   assume after "tr.errs = tr.errs[:len(tr.errs)-1]": len(tr.errs) >= errsBefore && (ghost("ioerr", tr.r) == 1 ==> len(tr.errs) > 0)
+//@   modifies tr.errs, tr.keepNextToken, tr.loc.lineChar, tr.loc.line, tr.nextToken, tr.lastToken, ghost("canunread", tr.r), ghost("ateof", tr.r), ghost("ioerr", tr.r), fresh(locError), fresh(byte), any(string), tr(), hw(), alloc()
